@@ -49,10 +49,11 @@ def _trace(engine, case, nev, events, gtables, rng, with_services):
             trace.append({"exc": type(st.extra).__name__, "phase": st.phase})
             return True
         if engine == "pure":
-            acts = [(a.type, None) for a in (st.extra or []) if _is_user(a.type)]
+            acts = [(a.type, None, None) for a in (st.extra or []) if _is_user(a.type)]
         else:
-            acts = [(r[1], getattr(r[2], "type", None)) for r in run["rec"].log[st.log_from:]
-                    if r[0] == "act"]
+            # name, triggering event type, and the configuration the action saw when it ran
+            acts = [(r[1], getattr(r[2], "type", None), tuple(sorted(r[3])))
+                    for r in run["rec"].log[st.log_from:] if r[0] == "act"]
         status = st.status
         if engine == "pure" and status == "active":
             status = "running"
@@ -98,6 +99,11 @@ def _compare(a, b, ea, eb, names_only):
             if ta != tb:
                 j = next(k for k in range(len(ta)) if ta[k] != tb[k])
                 return ("action-event", i, "%s saw %r in %s, %r in %s" % (na[j], ta[j], ea, tb[j], eb))
+        ca, cb = [p[2] for p in x["acts"]], [p[2] for p in y["acts"]]
+        if None not in ca and None not in cb and ca != cb:
+            j = next(k for k in range(len(ca)) if ca[k] != cb[k])
+            return ("configuration-seen-by-action", i, "%s ran with %s active in %s, %s in %s" % (
+                na[j], sorted(set(ca[j]) - set(cb[j]))[:3] or "-", ea, sorted(set(cb[j]) - set(ca[j]))[:3] or "-", eb))
     if len(a) != len(b):
         return ("length", min(len(a), len(b)), "%d vs %d steps" % (len(a), len(b)))
     return None
@@ -136,6 +142,15 @@ def run_case(res: Result, spec, idx):
         # finite raise fan-out must run to its natural end: the cut point of a runaway chain
         # is engine-specific and belongs to C13
         P = gen.profile(pname, maxit=20000)
+        if idx % 4 == 1:
+            # local state names reused across parents, targets written in EVERY spelling (bare and
+            # relative ones included, ambiguous or not): whatever a spelling denotes, the three
+            # engines must agree on it
+            # (no eventless / raised / completion follow-ups here: with ambiguous spellings the
+            #  generator can no longer keep those chains finite)
+            P = gen.profile("history" if idx % 8 == 1 else "core", maxit=20000, p_dup_key=0.6,
+                            dup_spell_any=True)
+            res.count("runs.with-ambiguous-spellings")
     case = gen.gen_case(rng_for(spec["seed"], ID, spec["chunk"], idx, "case"), P)
     nev = NEV[spec["tier"]]
     grng = rng_for(spec["seed"], ID, spec["chunk"], idx, "gtables")
